@@ -104,6 +104,10 @@ def build_schema(spec):
     raise HarnessError("bad schema spec %r" % (spec,))
 
 
+def _fresh(text):
+    return "".join(list(text)) if isinstance(text, str) and len(text) > 1 else text
+
+
 def build_source(spec, env):
     P, analytics, functions, terms, queries, enums, pseudo = lib()
     kind = spec[0]
@@ -113,7 +117,9 @@ def build_source(spec, env):
         extra = spec[4] if len(spec) > 4 else None
         if isinstance(extra, dict) and extra.get("query_cls"):
             qc = query_cls(extra["query_cls"])
-        t = P.Table(name, schema=build_schema(schema), alias=alias, query_cls=qc)
+        # names and aliases are handed over as fresh string objects: equal text in two different objects, as strings computed at run
+        # time are (identity-based comparisons in the library must not get away with interned literals)
+        t = P.Table(_fresh(name), schema=build_schema(schema), alias=_fresh(alias), query_cls=qc)
         if isinstance(extra, dict):
             if "for" in extra:
                 t = t.for_(build_arg(extra["for"], env))
